@@ -59,10 +59,11 @@ Proof. exact floor_rule_refuted. Qed.
 (** non-vacuity: a non-trivial well-formed marked argument and a run of the model on it *)
 Example C05_nonvacuous :
   let a := MV (VBox [3]%nat [VNum [2]%nat [0; F_NEG_ZERO]%N; VByte []%nat [3]%N; VChar [1]%nat [97]%N]) (FL false false false) in
-  wf a /\ (exists o, prim_c CSort [a] = Ok [o] /\ f_up (mv_f o) = true /\ wfb o = true) /\
-  (exists o, prim_c CReverse [MV (VByte [3]%nat [0; 1; 1]%N) (FL true true false)] = Ok [o] /\
-             mv_f o = FL true false true /\ wfb o = true).
-Proof. vm_compute. repeat split; try reflexivity; eexists; repeat split; reflexivity. Qed.
+  (wfb a &&
+   match prim_c CSort [a] with Ok [o] => f_up (mv_f o) && wfb o | _ => false end &&
+   match prim_c CReverse [MV (VByte [3]%nat [0; 1; 1]%N) (FL true true false)] with
+   | Ok [o] => flags_eqb (mv_f o) (FL true false true) && wfb o | _ => false end) = true.
+Proof. vm_compute. reflexivity. Qed.
 
 Print Assumptions C05_wf_preserved.
 Print Assumptions C05_flag_algebra_sound.
